@@ -67,6 +67,9 @@ struct ListInfo
     static constexpr std::array<bool, N> tracked{is_tracked_v<typename PInfo<P>::T>...};
     static constexpr std::array<int, N> stamp_kind{stamp_kind_v<typename PInfo<P>::T>...};
     static constexpr std::array<bool, N> cloned{std::is_same_v<typename PInfo<P>::T, Cloned>...};
+    // types whose operator< orders values like the model orders their keys (arithmetic, enums, pointers into one array)
+    static constexpr std::array<bool, N> key_ordered{(std::is_arithmetic_v<typename PInfo<P>::T> || std::is_enum_v<typename PInfo<P>::T> || std::is_pointer_v<typename PInfo<P>::T>)...};
+    static constexpr bool ALL_KEY_ORDERED = ((std::is_arithmetic_v<typename PInfo<P>::T> || std::is_enum_v<typename PInfo<P>::T> || std::is_pointer_v<typename PInfo<P>::T>) && ...);
     static constexpr bool ANY_CLONED = (std::is_same_v<typename PInfo<P>::T, Cloned> || ...);
     static constexpr bool ANY_STAMPED = ((stamp_kind_v<typename PInfo<P>::T> != 0) || ...);
     // arithmetic value types: their spans can be emplaced from ranges of other arithmetic types
